@@ -591,6 +591,7 @@ type trFn struct {
 	mapVars   map[string]bool   // parameters and locals of map type
 	chanVars  map[string]bool   // parameters of channel type (ranging over one yields its elements, not indices)
 	scanCur   map[string]string // scanner variable -> the Lean variable holding the line of the current round
+	brkStack  []byte            // what a `break` would leave, innermost last: 'l' a loop, 's' a switch or select clause
 	okValue   string            // the variable a matched call result is bound to (callStmt -> callBind)
 }
 
@@ -916,6 +917,9 @@ func (f *trFn) stmt1(ind string, s ast.Stmt, next cont) string {
 		case token.CONTINUE:
 			return ind + "LoopStep.next " + f.loopState() + "\n"
 		case token.BREAK:
+			if n := len(f.brkStack); n > 0 && f.brkStack[n-1] == 's' {
+				trFail(st, "`break` inside a switch or select clause leaves that clause, not the loop: not in the translated subset")
+			}
 			return ind + "LoopStep.brk " + f.loopState() + "\n"
 		}
 		trFail(st, "branch statement %s not supported here", st.Tok)
@@ -1116,7 +1120,15 @@ func (f *trFn) selectQueue(ind string, st *ast.SelectStmt, next cont) (string, b
 		f.push()
 		defer f.pop()
 		return pre(ind, func(ind string) string {
-			return f.stmts(ind, body, func(ind string) string { return f.outside(1, func() string { return next(ind) }) })
+			f.brkStack = append(f.brkStack, 's')
+			defer func() { f.brkStack = f.brkStack[:len(f.brkStack)-1] }()
+			return f.stmts(ind, body, func(ind string) string {
+				saved := f.brkStack
+				f.brkStack = f.brkStack[:len(f.brkStack)-1]
+				r := f.outside(1, func() string { return next(ind) })
+				f.brkStack = saved
+				return r
+			})
 		})
 	}
 	plain := func(ind string, k cont) string { return k(ind) }
@@ -1191,7 +1203,15 @@ func (f *trFn) selectStmt(ind string, st *ast.SelectStmt, next cont) string {
 		body = append([]ast.Stmt{pre}, body...)
 	}
 	f.push()
-	out := f.stmts(ind, body, func(ind string) string { return f.outside(1, func() string { return next(ind) }) })
+	f.brkStack = append(f.brkStack, 's')
+	out := f.stmts(ind, body, func(ind string) string {
+		saved := f.brkStack
+		f.brkStack = f.brkStack[:len(f.brkStack)-1]
+		r := f.outside(1, func() string { return next(ind) })
+		f.brkStack = saved
+		return r
+	})
+	f.brkStack = f.brkStack[:len(f.brkStack)-1]
 	f.pop()
 	return out
 }
@@ -2002,7 +2022,15 @@ func (f *trFn) switchStmt(ind string, st *ast.SwitchStmt, k cont) string {
 				return k(ind)
 			}
 			f.push()
-			out := f.stmts(ind, bodyOf(def), func(ind string) string { return f.outside(1, func() string { return k(ind) }) })
+			f.brkStack = append(f.brkStack, 's')
+			out := f.stmts(ind, bodyOf(def), func(ind string) string {
+				saved := f.brkStack
+				f.brkStack = f.brkStack[:len(f.brkStack)-1]
+				r := f.outside(1, func() string { return k(ind) })
+				f.brkStack = saved
+				return r
+			})
+			f.brkStack = f.brkStack[:len(f.brkStack)-1]
 			f.pop()
 			return out
 		}
@@ -2019,7 +2047,15 @@ func (f *trFn) switchStmt(ind string, st *ast.SwitchStmt, k cont) string {
 		return f.guarded(ind, gs, func(ind string) string {
 			out := fmt.Sprintf("%sif %s then\n", ind, strings.Join(conds, " || "))
 			f.push()
-			out += f.stmts(ind+"  ", bodyOf(order[j]), func(ind string) string { return f.outside(1, func() string { return k(ind) }) })
+			f.brkStack = append(f.brkStack, 's')
+			out += f.stmts(ind+"  ", bodyOf(order[j]), func(ind string) string {
+				saved := f.brkStack
+				f.brkStack = f.brkStack[:len(f.brkStack)-1]
+				r := f.outside(1, func() string { return k(ind) })
+				f.brkStack = saved
+				return r
+			})
+			f.brkStack = f.brkStack[:len(f.brkStack)-1]
 			f.pop()
 			out += ind + "else\n"
 			out += gen(j+1, ind+"  ")
@@ -2159,6 +2195,7 @@ func (f *trFn) loopOver(ind string, coll string, body []ast.Stmt, declare func()
 	saved := f.loop
 	f.loop = &trLoop{state: state}
 	f.loops++
+	f.brkStack = append(f.brkStack, 'l')
 	stateTuple := f.loopState()
 	f.push()
 	x := declare()
@@ -2169,6 +2206,7 @@ func (f *trFn) loopOver(ind string, coll string, body []ast.Stmt, declare func()
 	f.pop()
 	f.loop = saved
 	f.loops--
+	f.brkStack = f.brkStack[:len(f.brkStack)-1]
 	out += fmt.Sprintf("%s  (fun %s =>\n", ind, stateTuple)
 	out += strings.TrimRight(k(ind+"    "), "\n") + ")\n"
 	return out
@@ -2189,6 +2227,7 @@ func (f *trFn) whileStmt(ind string, st *ast.ForStmt, k cont) string {
 	saved := f.loop
 	f.loop = &trLoop{state: state}
 	f.loops++
+	f.brkStack = append(f.brkStack, 'l')
 	stateTuple := f.loopState()
 	out := fmt.Sprintf("%sgoWhile ext.fuel %s\n", ind, stateTuple)
 	condText := "true" // `for { … }`
@@ -2203,6 +2242,7 @@ func (f *trFn) whileStmt(ind string, st *ast.ForStmt, k cont) string {
 	f.pop()
 	f.loop = saved
 	f.loops--
+	f.brkStack = f.brkStack[:len(f.brkStack)-1]
 	out += fmt.Sprintf("%s  (fun %s =>\n", ind, stateTuple)
 	if st.Cond == nil && !hasBreak(st.Body) {
 		// nothing leaves an endless loop without `break` but a return: the code behind it is never reached
